@@ -11,7 +11,7 @@
    already of their WGSL types (float64 arithmetic of EvalBinaryFloat, then
    makeOverrideLiteral at type t); [spec_binop o a b] is the WGSL value.
 
-   Sound: + - * unary- ~ ! on i32/u32/bool for ALL operands (hypotheses = the stated
+   Sound: + - * / unary- ~ ! on i32/u32/bool for ALL operands (hypotheses = the stated
    no-overflow / exactness conditions); + - * / on f32 up to the sign of a zero result
    (`_partial`).  Refuted (witnesses = findings): every other operator, overflow, division
    by zero, NaN/out-of-range supplied values, unconverted supplied values seen by derived
@@ -22,7 +22,7 @@ From Flocq Require Import Core.Core IEEE754.BinarySingleNaN.
 Import ListNotations.
 Require Import Naga.Base.Bits32 Naga.Overrides.F64 Naga.Overrides.Spec Naga.Overrides.Model
                Naga.Overrides.FloatProofs Naga.Overrides.FloatProofs32 Naga.Overrides.FloatLink
-               Naga.Overrides.Proofs Naga.Overrides.GenOblig.
+               Naga.Overrides.Proofs Naga.Overrides.FloatDiv Naga.Overrides.DivProofs Naga.Overrides.GenOblig.
 Open Scope Z_scope.
 
 (* ================= operators the evaluator gets right (all operand values) ================= *)
@@ -55,6 +55,17 @@ Proof. exact sound_sub_u32. Qed.
 Theorem override_eval_sound_mul_u32_partial : forall p q, in32 p -> in32 q -> p * q < P53 ->
   spec_binop Mul (VU32 p) (VU32 q) = Ok (model_binop Mul TU32 (VU32 p) (VU32 q)).
 Proof. exact sound_mul_u32. Qed.
+
+(* integer division: all operands with a non-zero divisor (INT_MIN / -1 excluded: WGSL makes
+   it, like x / 0, a pipeline-creation error in an override-expression) *)
+Theorem override_eval_sound_div_i32 : forall p q, in32 p -> in32 q -> q <> 0 ->
+  ~ (p = INT_MIN_BITS /\ q = ALL_ONES) ->
+  spec_binop Div (VI32 p) (VI32 q) = Ok (model_binop Div TI32 (VI32 p) (VI32 q)).
+Proof. exact sound_div_i32. Qed.
+
+Theorem override_eval_sound_div_u32 : forall p q, in32 p -> in32 q -> q <> 0 ->
+  spec_binop Div (VU32 p) (VU32 q) = Ok (model_binop Div TU32 (VU32 p) (VU32 q)).
+Proof. exact sound_div_u32. Qed.
 
 Theorem override_eval_sound_bitnot_i32 : forall p, in32 p ->
   spec_unop UBitNot (VI32 p) = Ok (model_unop UBitNot TI32 (VI32 p)).
